@@ -4,6 +4,7 @@ import DarkluaModel.Rules.FunctionToAssign
 import DarkluaModel.Rules.RemoveMethodCall
 import DarkluaModel.Rules.ConvertSquareRootCall
 import DarkluaModel.C16.Whole
+import DarkluaModel.C16.GroupWhole
 import DarkluaModel.Shared.Driver
 import DarkluaModel.Rules.FunctionToAssignHeapV
 /-!
@@ -20,15 +21,15 @@ reason is stated and is one of: (D) a defect of the rule (`_full_false` + `_part
 hypothesis); (A) only allocation order / captured-environment contents differ, unobservably —
 then the theorem states exactly which part of the state differs.
 
-WHOLE-RULE theorems (observable outcome `Sem.runProgram` of every program satisfying a decidable
-syntactic hypothesis, all number systems / oracles / levels): `local_function_rule_refines` and
-`function_to_assign_rule_refines`, through stage 3 of the generic lifting
-(`Shared/VisitorSoundHeap.lean`: cells up to renumbering, closure environments up to dead names)
-and the guarded congruence family of `C16/Guard.lean` (hooks need to be sound on good inputs only).
-Not lifted: `group_local_assignment` (the merge is a statement-LIST step whose soundness in the heap
-relation needs a proof inside that relation: evaluation of the second initialisers commutes with
-the allocation of the first cells), `remove_method_call` (C16-F2; its literal-receiver part would
-need a hypothesis "no method call on an identifier", which excludes essentially every program),
+WHOLE-RULE theorems (observable outcome `Sem.runProgram`, all number systems / levels):
+`rule_refines_group_local_assignment` — EVERY program (stage 4 unified, `Shared/VisitorSoundHeapU.lean`: the cells
+of the first declaration are pinned on the original's side and matched late with the cells the merged
+declaration allocates, `C16/GroupLocalU.lean`, `C16/GroupWhole.lean`); `function_to_assign_rule_refines` — EVERY
+program (stage 4, closure renumbering); `local_function_rule_refines` — every program in which no local function
+is its own parameter (stage 3 + the guarded congruence family of `C16/Guard.lean`). The first two need the oracle
+of external functions to return no heap references (`OracleFlat`), which the harness oracle satisfies
+(`…_driver` variants have no hypothesis). Not lifted: `remove_method_call` (C16-F2; its literal-receiver part
+would need a hypothesis "no method call on an identifier", which excludes essentially every program),
 `convert_square_root_call` (C16-F3). For those the whole-rule claim is carried by the oracle.
 -/
 namespace DarkluaModel.C16
@@ -110,6 +111,41 @@ theorem group_refines_partial_second_empty {N : NumOps} (call : CallFn N) (ρ : 
 example : GroupLocal.merge [.mk "a" none] [.true] [.mk "b" none, .mk "c" none] []
     = ([.mk "a" none, .mk "b" none, .mk "c" none], [.true, .nil, .nil]) := by
   simp [GroupLocal.merge, GroupLocal.nils]
+
+/-- **`rule_refines_group_local_assignment` (whole rule, EVERY program, full statement).** The modelled rule
+(`Rules.GroupLocal.apply`: one `DefaultVisitor` pass merging consecutive `local` declarations wherever the real
+`should_merge` says so) preserves the observable outcome — returned / raised values and the trace of external
+calls — of every program, at every call level and number system; only hypothesis: the oracle of external
+functions returns no table / closure references. Each merge is a generic `HeapU` leaf (`GroupU.merge_leaf`): the
+second initialisers do not reference the first names (`FindVariables`, through `C16/RefsMentionsL.lean`), so they
+evaluate to related values whether the first cells exist already (original: pinned, private) or not yet
+(output); the pinned cells are then matched with the cells the merged declaration allocates
+(`SRel.matchCellRight`). All value-count cases of `merge` (nil padding on either side, multi-value last
+initialiser truncated) are covered. This supersedes the per-hook `group_refines_partial` statements, which are
+kept (they are exact equalities, under semantic hypotheses). -/
+theorem rule_refines_group_local_assignment (b : Block) {N : NumOps} (ρ : ExtOracle N)
+    (hρ : Sem.HeapU.OracleFlat ρ) (n : Nat) (externs : List String) :
+    runProgram ρ n externs (GroupLocal.apply b) = runProgram ρ n externs b :=
+  GroupU.apply_refines b ρ hρ n externs
+
+/-- at the oracle the harness executes: no hypothesis -/
+theorem rule_refines_group_local_assignment_driver (b : Block) (n : Nat) (externs : List String) :
+    runProgram Shared.driverOracle n externs (GroupLocal.apply b) = runProgram Shared.driverOracle n externs b :=
+  rule_refines_group_local_assignment b Shared.driverOracle Sem.HeapU.driverOracle_flat n externs
+
+/-- non-vacuity: `local a = get1()  local f = function() return 1 end  local c, d  local e = a  return e` —
+three merges into `local a, f, c, d = get1(), function…, nil, nil`; `local e = a` mentions `a` and stays -/
+def glSample : Block :=
+  .mk [.localAssign .loc [.mk "a" none] [.call (.var "get1") none .tuple []],
+       .localAssign .loc [.mk "f" none] [.fn (.mk [] false none none [] [] (.mk [] (some (.ret [.true]))))],
+       .localAssign .loc [.mk "c" none, .mk "d" none] [],
+       .localAssign .loc [.mk "e" none] [.var "a"]] (some (.ret [.var "e"]))
+example : GroupLocal.apply glSample =
+    .mk [.localAssign .loc [.mk "a" none, .mk "f" none, .mk "c" none, .mk "d" none]
+           [.call (.var "get1") none .tuple [], .fn (.mk [] false none none [] [] (.mk [] (some (.ret [.true])))),
+            .nil, .nil],
+         .localAssign .loc [.mk "e" none] [.var "a"]] (some (.ret [.var "e"])) := by
+  rfl
 
 /-! ## convert_local_function_to_assign -/
 
